@@ -215,6 +215,9 @@ func (sc *scenario) redefineOnce(fin, fout *filterSpec) ([]string, *am.Func) {
 
 func genRedef(w *bufio.Writer, r *rng, id int) {
 	sc, fin, fout := genRedefScenario(r)
+	if r.chance(1, 3) && sc.buildAll() == nil {
+		sc.gensify(r) // some converters come from converter generators
+	}
 	if err := sc.buildAll(); err != nil {
 		fmt.Fprintf(w, "scn redef %d builderr\nbuilderr %s\nend\n", id, strings.ReplaceAll(err.Error(), "\n", " "))
 		return
